@@ -38,5 +38,5 @@ fn history(ctx: &Ctx) -> R {
 }
 
 fn main() {
-    simcore::main_with("C16", &[Scenario { name: "history", runs_quick: 6_000_000, runs_thorough: 200_000_000, f: history }]);
+    simcore::main_with("C16", &[Scenario { name: "history", runs_quick: 6_000_000, runs_thorough: 60_000_000, f: history }]);
 }
